@@ -507,7 +507,13 @@ var (
 	c19Fields = [][]byte{[]byte("f1"), []byte("f2"), []byte("x"), {0x00, 0xff}, []byte("0"), []byte("10"), []byte("1x")}
 	// distinct scores, among them pairs that differ only in the last bits (an update must still be an update)
 	c19Scores = []float64{-2.5, 0, 0.5, math.Nextafter(0.5, 1), 1, 3, 100, 100.00000001, 1e10, 1e10 + 1, -0.001, 1.7e12, 1.70000000025e12}
-	c19Cmds   = []string{"set", "get", "hset", "hget", "hdel", "sadd", "sismember", "srem", "lpush", "rpush", "lpop", "rpop", "zadd", "zscore", "del", "type", "restart",
+	// values whose leading bytes look like (over-long) varints, like a metadata record of another type, or are all zero
+	c19BinaryValues = [][]byte{
+		bytes.Repeat([]byte{0xff}, 12), append(bytes.Repeat([]byte{0x80}, 10), 'x'), bytes.Repeat([]byte{0xff}, 9), {0x80},
+		{0x01, 0x00, 0x02, 0x02}, {0x03, 0x00, 0x02, 0x04, 0x80, 0x01}, {0x00}, {0x00, 0x00, 0x00, 0x00, 0x00, 0x00, 0x00, 0x00, 0x00, 0x00, 0x00, 0x00},
+		append(bytes.Repeat([]byte{0xfe}, 30), 0x01),
+	}
+	c19Cmds = []string{"set", "get", "hset", "hget", "hdel", "sadd", "sismember", "srem", "lpush", "rpush", "lpop", "rpop", "zadd", "zscore", "del", "type", "restart",
 		"hset", "sadd", "lpush", "rpush", "zadd", "lpop", "rpop", "hdel", "srem"}
 )
 
@@ -592,10 +598,16 @@ func c19Run(t *rapid.T, st *kvh.Stats) {
 				cmd.V = []byte(fmt.Sprintf("s%d", kvh.U(t, 50, "v")))
 				if kvh.Pct(t, 10, "emptyv") {
 					cmd.V = []byte{}
+				} else if kvh.Pct(t, 15, "binv") {
+					// binary contents: what the bytes behind the type byte and the expiry look like must not matter
+					cmd.V = kvh.Pick(t, c19BinaryValues, "binval")
 				}
 				cmd.TTL = kvh.Pick(t, []int{0, 0, 1, -1}, "ttl")
 			case "hset", "lpush", "rpush":
 				cmd.V = []byte(fmt.Sprintf("e%d", kvh.U(t, 50, "v")))
+				if kvh.Pct(t, 8, "bine") {
+					cmd.V = kvh.Pick(t, c19BinaryValues, "binelem")
+				}
 			case "zadd":
 				cmd.Score = kvh.Pick(t, c19Scores, "score")
 			}
